@@ -17,7 +17,10 @@ var codeToStr = map[string]string{
 	"sp": " ", "tab": "\t", "nl": "\n", "cr": "\r",
 	"nbsp": " ", "w2": "é", "w3": "中", "w4": "😀", "cm": "́", "wsl": "Ġ",
 	"XMLNS": xmlNsURI,
+	"Z400":  z400, // a run of 400 zeros: "1" followed by it is a numeral far too large for a double
 }
+
+var z400 = strings.Repeat("0", 400)
 
 var strToCode map[string]string
 
@@ -77,6 +80,11 @@ func codes(s string) []string {
 		if strings.HasPrefix(s, xmlNsURI) {
 			out = append(out, "XMLNS")
 			s = s[len(xmlNsURI):]
+			continue
+		}
+		if strings.HasPrefix(s, z400) {
+			out = append(out, "Z400")
+			s = s[len(z400):]
 			continue
 		}
 		r, n := utf8.DecodeRuneInString(s)
